@@ -55,8 +55,9 @@ forms), `C16BWriter` (the format of `write_to`), `C16BDecide` (the hypotheses ar
 * Arcs (`A`/`a`) are not part of `C16Cmd` (C16 has `cmd_arc` for one arc command).
 * Nothing about a number *printer*: `spell` is a parameter with the hypothesis "valid token whose `tokValue ∘ parseTok` is `x`" for
   the numbers that occur (it cannot hold for NaN / infinities; for `Float` it is Rust's `Display`/`FromStr` round trip, validated
-  only by the correspondence runs).  `c16b_write` is a definition in the proof tree, not part of the model: there is no model of
-  `write_to` in `Kurbo/Svg.lean`, so `parse_write_format_roundtrip` is a round trip for the *format*, not for the crate's writer.
+  only by the correspondence runs).  `c16b_write` is a definition in the proof tree; the MODEL of `write_to` is `svgWrite`
+  (`Kurbo/SvgWrite.lean`, tied to the crate by the stratum `writer`), and `Proofs/C16W.lean` proves `c16b_write = svgWrite` and
+  restates the theorems of section 5 for the model writer.
 * "Same segments" for paths in which a `ClosePath` is followed by a drawing element is only stated as an element count, not as
   equality of `segments()`.
 * The converse (every byte string the parser accepts is `c16b_spell` of some well-formed list) is not proved.
@@ -244,7 +245,8 @@ theorem parse_render_same_normal_form (spell spell' : K → NumParts) (cs cs' : 
 
 `c16b_write spell els` is the *format* of svg.rs `write_to` (`M{},{}` / `L{},{}` / `Q{},{} {},{}` / `C{},{} {},{} {},{}` / `Z`, one
 space between elements) with the number printer `spell` as a parameter.  It is defined in `Proofs/Lemmas/C16BWriter.lean` by
-reading the Rust source; there is no `write_to` in the model `Kurbo/Svg.lean`, and nothing here is about Rust's `Display for f64`. -/
+reading the Rust source; `Proofs/C16W.lean` shows that it is the model writer `svgWrite` of `Kurbo/SvgWrite.lean`.  Nothing here is
+about Rust's `Display for f64`. -/
 
 /-- the parser reads a written element list back as the meaning of the commands `M L Q C Z` it consists of -/
 theorem parse_write_format (spell : K → NumParts) (els : List (PathEl K)) (hm : c16b_startsWithMove (els.map c16b_ofEl))
